@@ -9,11 +9,22 @@
 // steps (from the interrupted one on) are delivered again and the final state is dumped.
 //
 // Oracle (Go only, independent of the model):
-//   O1 startup succeeds (no error, no panic);
-//   O2 the restarted node's state is one the crash-free node passed through: its ledger part (best block,
-//      main-chain index, tracked utxo entries, InMainChain) and its finality part (last justified, last
-//      finalized) each equal the crash-free node's before or after the interrupted step;
-//   O3 after re-delivery the dump equals the crash-free run's final dump.
+//
+//	O1 startup succeeds (no error, no panic);
+//	O2 the restarted node's state is one the crash-free node passed through: its ledger part (best block,
+//	   main-chain index, tracked utxo entries, InMainChain) and its finality part (last justified, last
+//	   finalized) each equal the crash-free node's before or after the interrupted step;
+//	O3 after re-delivery the dump equals the crash-free run's final dump.
+//
+// Oracle failures are classified structurally from the database at the crash point and the history; the
+// recorded classes (known_findings.json) are checkpoint-before-block (a checkpoint record without its block:
+// startup error), growing-checkpoint-lost (the crash-free winner is a stored block of an unfinished epoch that
+// the restarted node never re-applies), stored-block-not-adopted (the interrupted epoch-closing block is stored,
+// wins by its sup link, is not higher than the persisted best block), finalization-in-flight (a stored checkpoint
+// above the persisted finalized pointer already has status Finalized) and own-vote-erased (the re-delivered copy
+// of the stored interrupted block overwrote the header with fewer signatures).  Anything else — startup error or
+// panic without a dangling checkpoint, ledger or finality part off the crash-free path, hang, any other
+// difference after re-delivery — is an unknown class and fails the check.
 // The Coq model C19/Model.v is evaluated on every (history, k) and compared with the node on the
 // projected observables (startup class; best/justified/finalized after restart and after re-delivery;
 // the main-chain index after re-delivery).
@@ -79,12 +90,12 @@ func apply(db dbm.DB, ops []wop) {
 	}
 }
 
-func (d *logDB) Get(k []byte) []byte   { return d.inner.Get(k) }
-func (d *logDB) Set(k, v []byte)       { d.commit([]wop{{false, string(k), append([]byte{}, v...)}}) }
-func (d *logDB) SetSync(k, v []byte)   { d.Set(k, v) }
-func (d *logDB) Delete(k []byte)       { d.commit([]wop{{true, string(k), nil}}) }
-func (d *logDB) DeleteSync(k []byte)   { d.Delete(k) }
-func (d *logDB) Close()                {}
+func (d *logDB) Get(k []byte) []byte    { return d.inner.Get(k) }
+func (d *logDB) Set(k, v []byte)        { d.commit([]wop{{false, string(k), append([]byte{}, v...)}}) }
+func (d *logDB) SetSync(k, v []byte)    { d.Set(k, v) }
+func (d *logDB) Delete(k []byte)        { d.commit([]wop{{true, string(k), nil}}) }
+func (d *logDB) DeleteSync(k []byte)    { d.Delete(k) }
+func (d *logDB) Close()                 {}
 func (d *logDB) Iterator() dbm.Iterator { return d.inner.Iterator() }
 func (d *logDB) IteratorPrefix(p []byte) dbm.Iterator {
 	return d.inner.IteratorPrefix(p)
@@ -212,11 +223,11 @@ type Spec struct {
 }
 
 type stepT struct {
-	Kind   string // "block" | "vote"
-	Block  int    // label of the block (delivered block, or target of the vote)
-	Src    int    // vote: label of the source
-	Key    int    // vote: which key
-	Links  [][2]int // block: carried sup links as (source label, number of foreign signatures)
+	Kind  string   // "block" | "vote"
+	Block int      // label of the block (delivered block, or target of the vote)
+	Src   int      // vote: label of the source
+	Key   int      // vote: which key
+	Links [][2]int // block: carried sup links as (source label, number of foreign signatures)
 }
 
 type proj struct {
@@ -250,6 +261,7 @@ type resOut struct {
 	Dangling []string
 	FinLag   bool  // a stored checkpoint above the persisted finalized pointer already has status Finalized
 	Stored   []int // labels of the blocks whose header is stored at the crash point
+	SigLost  bool  // after re-delivery the stored header of the interrupted block has fewer sup-link signatures than the crash-free node's
 	State    *proj
 	Final    *proj
 	Hang     bool
@@ -403,6 +415,23 @@ func (x *world) status(n *cl.Node, t int) int {
 	return int(c.Status)
 }
 
+// countSigs: number of sup-link signatures in the stored header of a block (-1: not stored)
+func countSigs(n *cl.Node, h bc.Hash) int {
+	hd, err := n.Store.GetBlockHeader(&h)
+	if err != nil {
+		return -1
+	}
+	k := 0
+	for _, sl := range hd.SupLinks {
+		for _, sig := range sl.Signatures {
+			if len(sig) != 0 {
+				k++
+			}
+		}
+	}
+	return k
+}
+
 func emit(v interface{}) {
 	b, _ := json.Marshal(v)
 	os.Stdout.Write(append(b, '\n'))
@@ -484,8 +513,9 @@ func childHist(args []string) int {
 	db := newLogDB(&log)
 	n, err := cl.NewNodeOnDB("", db)
 	if err != nil {
-		fmt.Fprintln(os.Stderr, "fresh node:", err)
-		return 2
+		emit(map[string]interface{}{"t": "fresh-fail", "Err": err.Error()})
+		emit(map[string]interface{}{"t": "done"})
+		return 0
 	}
 	ho := histOut{T: "hist", NBlocks: len(x.blocks)}
 	ho.Bounds = append(ho.Bounds, len(log))
@@ -499,7 +529,9 @@ func childHist(args []string) int {
 		}
 		r, hang := x.deliver(n, s)
 		if hang {
-			fmt.Fprintln(os.Stderr, "crash-free run hangs at step", len(ho.Steps)+1)
+			emit(map[string]interface{}{"t": "fresh-fail", "Err": fmt.Sprintf("crash-free run hangs at step %d", len(ho.Steps)+1)})
+			emit(map[string]interface{}{"t": "done"})
+			os.Exit(0)
 			return false
 		}
 		eff := ""
@@ -650,6 +682,10 @@ func childHist(args []string) int {
 			if !r.Hang {
 				f := x.project(rn)
 				r.Final = &f
+				if step <= len(ho.Steps) && ho.Steps[step-1].Kind == "block" {
+					hh := x.blocks[ho.Steps[step-1].Block].Hash
+					r.SigLost = countSigs(rn, hh) < countSigs(n, hh)
+				}
 			}
 		}
 		emit(r)
@@ -661,9 +697,10 @@ func childHist(args []string) int {
 // ---------------------------------------------------------------- parent
 
 type caseResult struct {
-	Hist histOut
-	Res  []resOut
-	Err  string
+	FreshFail string
+	Hist      histOut
+	Res       []resOut
+	Err       string
 }
 
 func runChild(sp Spec, timeout time.Duration) caseResult {
@@ -698,6 +735,10 @@ func runChild(sp Spec, timeout time.Duration) caseResult {
 				continue
 			}
 			switch t.T {
+			case "fresh-fail":
+				var ff struct{ Err string }
+				json.Unmarshal(line, &ff)
+				cr.FreshFail = "error: " + ff.Err
 			case "hist":
 				json.Unmarshal(line, &cr.Hist)
 			case "at":
@@ -792,6 +833,8 @@ func run(c *Ctx) error {
 		{Stream: "corpus-stored-not-adopted", Seed: 5, Trunk: 10, ForkAt: 5, ForkLn: 3, Carry: []int{108}, CarryN: []int{3}},
 		{Stream: "corpus-finalization-in-flight", Seed: 5, Trunk: 9, ForkAt: 3, ForkLn: 7, Carry: []int{4, 108}, CarryN: []int{3, 3}, Votes: []int{8}, VoteN: []int{3}},
 	}
+	corpus = append(corpus, Spec{Stream: "corpus-own-vote-erased", Seed: 7773590968004101420, Trunk: 5, ForkAt: 1, ForkLn: 3,
+		Carry: []int{4, 104, 112}, CarryN: []int{3, 1, 2}, Inter: 2})
 	for _, sp := range corpus {
 		sp.ID, sp.Stride = id, 1
 		specs = append(specs, sp)
@@ -857,6 +900,14 @@ func kindCode(k string) int {
 
 func judge(c *Ctx, sp Spec, cr caseResult) []failure {
 	h := cr.Hist
+	if cr.FreshFail != "" {
+		c.Stats.Count("oracle-failure:fresh-node-fails")
+		return []failure{{false, "fresh-node-fails", "class=fresh-node-fails: NewChain on an empty store: " + cr.FreshFail, map[string]interface{}{"spec": sp}}}
+	}
+	if len(h.Dumps) == 0 {
+		c.Stats.Count("oracle-failure:crash-free-run-fails")
+		return []failure{{false, "crash-free-run-fails", "class=crash-free-run-fails: the crash-free run did not complete", map[string]interface{}{"spec": sp}}}
+	}
 	E := uint64(4)
 	c.Stats.Count("stream:" + sp.Stream)
 	c.Stats.Count(fmt.Sprintf("history-steps:%02d-%02d", len(h.Steps)/5*5, len(h.Steps)/5*5+4))
@@ -946,6 +997,7 @@ func judge(c *Ctx, sp Spec, cr caseResult) []failure {
 		for _, b := range r.Stored {
 			stored[b] = true
 		}
+		voteErased := false
 		// ---- O1 startup
 		switch {
 		case r.Startup == "ok":
@@ -991,6 +1043,9 @@ func judge(c *Ctx, sp Spec, cr caseResult) []failure {
 				switch {
 				case r.FinLag:
 					fail(true, "finalization-in-flight", detail, r)
+				case r.SigLost && cur >= 0 && stored[cur] && h.Height[cur]%E == 0:
+					voteErased = true
+					fail(true, "own-vote-erased", detail+fmt.Sprintf(" (block %d was stored with the node's own vote; the re-delivered copy overwrote the header without it)", cur), r)
 				case cur >= 0 && stored[cur] && post.Best == cur && h.Height[cur] <= s.Height && f.Best != final.Best:
 					fail(true, "stored-block-not-adopted", detail+fmt.Sprintf(" (block %d was stored, the chain status was not; re-delivery returns 'already processed')", cur), r)
 				case h.Height[W]%E != 0 && stored[W] && !reapplied && f.Best != W:
@@ -1007,6 +1062,10 @@ func judge(c *Ctx, sp Spec, cr caseResult) []failure {
 		code, okc := su[r.Startup]
 		if !okc || r.Hang {
 			continue // a dead or hung node has no projected state: judged by the oracle only
+		}
+		if voteErased {
+			c.Stats.Count("model-skipped:signature-lost")
+			continue // stored signatures changed: the model's input "this link reaches a supermajority" (observed on the crash-free run) does not describe the re-delivery
 		}
 		obs := fmt.Sprintf("(%d, %d, %d, ", code, kindCode(kind)%9, len(h.Kinds))
 		if kind == "none" {
